@@ -2025,9 +2025,18 @@ hdf_cdf_clobber(NC *handle)
         goto done;
     }
 
-    /* Close open VData pointers */
-    if (FAIL == hdf_close(handle)) {
-        HGOTO_FAIL(FAIL);
+    /* Close open VData pointers.  The dimension Vdatas of the description that
+       is about to be deleted must not receive the current record count: that
+       would overwrite stored objects in place before their replacement exists */
+    {
+        unsigned ndirty = handle->flags & NC_NDIRTY;
+
+        handle->flags &= ~NC_NDIRTY;
+        status = hdf_close(handle);
+        handle->flags |= ndirty;
+        if (FAIL == status) {
+            HGOTO_FAIL(FAIL);
+        }
     }
 
     /* loop through and Clobber all top level VGroups */
